@@ -13,7 +13,8 @@ def main(tier):
                 "enumerated exhaustively by lazy materialisation; obligations per case: exit row, atomicity of refusals, no panic in the "
                 "possible row; non-trivial = distinct (entry, shape) whose call changes the heap")
     profiles = ["dev", "rel"]
-    entries = list(e2props.CHECKED) + (list(e2props.UNCHECKED) if tier == "thorough" else [])
+    # the panicking wrappers are explored in both tiers: the structural wrapper clause below only says that they call the checked form, not what they do with an Err
+    entries = list(e2props.CHECKED) + list(e2props.UNCHECKED)
     data = e2props.load(run, profiles, entries)
     for (prof, entry), recs in sorted(data.items()):
         e2props.undecided(run, recs, prof)
